@@ -240,6 +240,7 @@ func Main(args []string) int {
 			v.NoCache = true
 		}
 		if args[0] == "tracediff" {
+			NewestFirst = v.LIFO
 			var cs []int
 			for _, s := range strings.Split(*choices, ",") {
 				if s != "" {
